@@ -27,11 +27,18 @@ Proof. exact archive_written_once. Qed.
 Print Assumptions C18_archive_written_once.
 
 Theorem C18_archive_close_after_failure : forall oks,
-  a_closed (arch_closes (false :: oks) arch_init) = false
+  a_closed (arch_closes (false :: oks) arch_init) = true
   /\ a_complete (arch_closes (false :: oks) arch_init) = 0
-  /\ a_writes (arch_closes (false :: oks) arch_init) = S (List.length oks).
+  /\ a_writes (arch_closes (false :: oks) arch_init) = 1
+  /\ snd (arch_close false arch_init) = Crash RawOSError.
 Proof. exact archive_close_after_failure. Qed.
 Print Assumptions C18_archive_close_after_failure.
+
+Theorem C18_archive_close_final : forall ok oks ok',
+  let a := arch_closes (ok :: oks) arch_init in
+  a_closed a = true /\ arch_close ok' a = (a, Ok tt) /\ a_writes a = 1.
+Proof. exact archive_close_final. Qed.
+Print Assumptions C18_archive_close_final.
 
 Theorem C18_members_closed_iff_auto_close : forall auto members,
   Forall (fun b => b = false) members -> members <> [] ->
